@@ -45,6 +45,50 @@ PROPS = {
                    "decoder itself (escapes, surrogate pairing, UTF-8 validation, borrowing) belongs to the parser machine and "
                    "is not covered by this branch.",
     ),
+    "C03": dict(
+        lean_targets=["SJ.Props.C03", "SJ.Audit.C03"],
+        configs=dict(quick=["d"], thorough=["d", "po", "ap", "fr"]),
+        gen_keys=["ser."],
+        rule="fixed corpus of hand-written serializer programs (every serde::Serializer entry point, every key kind valid and "
+             "invalid, empty/nested containers incl. an empty struct variant inside nested maps, None-hinted empty seq/map), then "
+             "random programs from gen_prog (all constructors, depth 0-4, hints None/exact, adversarial strings, float specials), "
+             "each through to_vec/to_string/to_writer (serc), PrettyFormatter::with_indent for indents '', ' ', tab, two spaces, 'ab' "
+             "(serp), and a recording io::Write (serbufs: exact buffer list); ill-hinted programs through the recorder only "
+             "(serbufx: model comparison); Values through Display / {:#} / to_string / to_string_pretty (disp). A case is "
+             "non-trivial when the program contains a container, bytes or a string needing an escape (disp: array or object); "
+             "distinct = distinct case lines.",
+        trusted_base=[KERNEL, TIE,
+                      "itoa and ryu are parameters (structure Ext) with recorded assumptions ExtOK: itoa prints plain decimal digits, "
+                      "ryu prints finite floats as RFC 8259 numbers (the ryu text of every generated float is checked to be a number "
+                      "by the executable specification on each run; that it is the shortest round-tripping decimal is not checked here)",
+                      "serde's default SerializeMap::serialize_entry (= serialize_key; serialize_value), Vec<T>::serialize "
+                      "(serialize_seq(Some(len))), io::Write::write_all, fmt::Formatter adapter of Display: by documented semantics",
+                      "lean/SJ/Spec/Recognise.lean (independent recursive-descent recogniser used to check the implementation's bytes) "
+                      "is proved sound against Grammar.JsonText (c03_recognise_sound); its completeness is not needed"],
+        assumptions=["ExtOK: ext.itoa n = Spec.Number.decimal n; finite floats: Grammar.IsNumber (ext.ryu64 b) / (ext.ryu32 b)",
+                     "programs obey the serde contract on length hints (None or Some(exact)); type names are not the private "
+                     "$serde_json::private::Number / RawValue tokens (feature-gated special cases, out of scope except Number's own impl)",
+                     "collect_str's Display writes its text in one write_str call (buffer-level statements only)"],
+        partial=["c03_display_partial: Display/{:#} are the two serializers by definition in the model; the fmt adapter is covered by "
+                 "the correspondence op `disp` only",
+                 "c03_utf8_partial: proved per string (every buffer of format_escaped_str is ASCII or a fragment cut at ASCII bytes); "
+                 "lift to whole programs and a ValidUtf8 conclusion pending the shared Spec.Utf8"],
+        technique="Lean 4 theorems over all serializer programs: the transcription of Serializer/Compound/MapKeySerializer with both "
+                  "Formatters (exact write_all buffer lists, State / current_indent / has_value bookkeeping) refines a structural "
+                  "printer of the data-model image; the printer's output is derivable in the RFC 8259 grammar and denotes the image; "
+                  "formatter literals regenerated from src/ser.rs; differential run against the crate with an independent recogniser",
+        level_text="Machine-checked Lean 4 theorems (c03_compact, c03_error_iff, c03_pretty_layout, c03_hints, c03_value, "
+                   "c03_no_underflow, c03_recognise_sound) state for every serializer program with exact-or-absent length hints and every indent string "
+                   "that the modelled serializer either fails exactly when a map key is not string-like (same error class) or emits "
+                   "buffers whose concatenation equals the structural compact/pretty layout of the program's data-model image, which "
+                   "is derivable in the RFC 8259 grammar and denotes that image; hints do not change the buffers. The byte strings "
+                   "written by Formatter/PrettyFormatter are re-extracted from src/ser.rs on every run and the model is compared with "
+                   "the real crate buffer by buffer on generated programs in four feature configurations, the crate's bytes being "
+                   "re-parsed by an independent recogniser and compared with the image.",
+        level_note="Trusted: Lean kernel + propext/Classical.choice/Quot.sound; extract.py; harness/driver comparison; itoa/ryu as "
+                   "assumed parameters; serde default methods by documented semantics. Partial: Display adapter (correspondence "
+                   "only), UTF-8 validity (per string only).",
+    ),
     "C18": dict(
         lean_targets=["SJ.Props.C18", "SJ.Audit.C18"],
         configs=dict(quick=["d"], thorough=["d", "po", "ap"]),
